@@ -86,6 +86,10 @@ POSITIONS = {
                                                      [b.catch_simple(None, b.block([]))])]),
     'try_success_body': _in_fn(lambda b, e: [b.try_(b.call(b.member(b.this(), 'g'), []), ([b.param(u256(b), None, 'r')], b.block([b.expr_stmt(e)])),
                                                     [b.catch_simple(None, b.block([]))])]),
+    # without a `returns` clause the parser attaches the success block to the call expression (FunctionCallBlock)
+    'try_success_block_without_returns': _in_fn(lambda b, e: [b.try_(b.call_block(b.call(b.member(b.this(), 'g'), []), b.block([b.expr_stmt(e)])), None,
+                                                                     [b.catch_simple(None, b.block([]))])]),
+    'call_option_value': _in_fn(lambda b, e: [b.expr_stmt(b.call(b.call_block(b.member(b.var('t'), 'call'), b.args_stmt([('value', e)])), [b.string('')]))]),
     'catch_body': _in_fn(lambda b, e: [b.try_(b.call(b.member(b.this(), 'g'), []), None,
                                               [b.catch_simple(None, b.block([b.expr_stmt(e)]))])]),
     'named_catch_body': _in_fn(lambda b, e: [b.try_(b.call(b.member(b.this(), 'g'), []), None,
@@ -115,7 +119,8 @@ for _k, _v in POSITIONS.items():
 # positions whose scaffolding changes what a detector must say about the slot expression are handled by the oracle's
 # context (unchecked_block, for_condition); all others are neutral.
 QUICK_POSITIONS = ['statement', 'initialiser', 'if_condition', 'for_condition', 'call_argument', 'power_exponent',
-                   'prefix_increment_operand', 'unchecked_block', 'unchecked_if_body', 'unchecked_initialiser', 'catch_body', 'modifier_argument',
+                   'prefix_increment_operand', 'unchecked_block', 'unchecked_if_body', 'unchecked_initialiser', 'catch_body', 'try_success_block_without_returns',
+                   'call_option_value', 'modifier_argument',
                    'state_variable_initialiser', 'free_function_body', 'ternary_branch', 'second_contract']
 
 
